@@ -52,6 +52,9 @@ def _statemc(props_hint, tier, asan_too=True, raw_too=False, limits=False):
         J("statemc", "plain", ["--alphabet", "macro", "--depth", "4" if q else "5", "--cfg", "0", "--devdepth", "3" if q else "4", "--ndev", "1"]),
         J("statemc", "plain", ["--alphabet", "micro", "--depth", "4" if q else "5", "--cfg", "1"]),
         J("statemc", "plain", ["--alphabet", "macro", "--depth", "5" if q else "6", "--cfg", "1"]),
+        # third alphabet: line-ending oddities (bare LF, LF CR, CR CR LF, ...), colon-less and oddly delimited lines
+        J("statemc", "plain", ["--alphabet", "odd", "--depth", "4" if q else "5", "--cfg", "0"]),
+        J("statemc", "plain", ["--alphabet", "odd", "--depth", "3" if q else "4", "--cfg", "1", "--devdepth", "3" if q else "4"]),
     ]
     if limits:
         jobs += [J("statemc", "plain", ["--alphabet", "micro", "--depth", "4" if q else "5", "--cfg", "2"]),
@@ -93,7 +96,7 @@ _EDITS_RULE = ("; cutmc edits: 23 base exchanges (plain, bodies, chunked+trailer
                "schedule of the two token lists with <= P preemptions, per configuration of the statemc menu; where stated, every execution again with one callback deviation at every callback ordinal")
 
 
-_STATEMC_RULE = ("E2 statemc: breadth-first search over event histories (request/response tokens of the micro or macro alphabet, stream gaps, close, "
+_STATEMC_RULE = ("E2 statemc: breadth-first search over event histories (request/response tokens of the micro, macro or odd-line-ending alphabet, stream gaps, close, "
                  "request-close, tx destroy, tx_freed; optionally one callback deviation per history), each history replayed on a fresh real parser, states "
                  "de-duplicated by a 128-bit hash of the exact canonical parser state; every transition runs all monitors and ends with a full teardown; "
                  "states = sum of per-shard distinct canonical states (an over-count of globally distinct ones), transitions = (state,event) pairs executed")
@@ -333,6 +336,8 @@ def _c01_jobs(tier):
         J("statemc", "plain", ["--alphabet", "micro", "--depth", d("4", "5"), "--cfg", "0"]),
         J("statemc", "plain", ["--alphabet", "macro", "--depth", d("5", "6"), "--cfg", "1"]),
         J("statemc", "plain", ["--alphabet", "macro", "--depth", d("4", "5"), "--cfg", "0", "--raw", "1", "--devdepth", d("2", "3")]),
+        J("statemc", "asan", ["--alphabet", "odd", "--depth", d("3", "4"), "--cfg", "0", "--devdepth", d("2", "3")]),
+        J("statemc", "asan", ["--alphabet", "odd", "--depth", d("3", "4"), "--cfg", "1", "--raw", "1"]),
         J("cutmc", "asan", ["--mode", "corpus"]),
         # labelled scenario: TRANSACTION_COMPLETE destroys its own transaction (auto-destroy off)
         J("statemc", "asan", ["--alphabet", "macro", "--depth", d("4", "5"), "--cfg", "0", "--devdepth", d("4", "5"), "--selfdestroy"]),
